@@ -433,7 +433,7 @@ pub fn encode_k(kc: &KCase, b: &Built, scheds: &[Vec<usize>], pops: &[usize]) ->
     // great-circle metres from every vertex to the inner source (the reverse run's target)
     let gc_rev: Vec<f64> = if inner_target(c).is_some() {
         let s = inner_source(c);
-        c.coords.iter().map(|p| gc_between(*p, c.coords[s])).collect()
+        c.coords.iter().map(|p| gc_entry(*p, c.coords[s])).collect()
     } else {
         vec![]
     };
